@@ -715,6 +715,27 @@ func (e *SEnv) evalCall(n *SCall) Val {
 			return specInt(Fresh("nevercalled", SInt))
 		}
 		return rec.rets[ri]
+	case "global": // global("pkg/path.Name"): a package-level variable (e.g. the error sentinel io.EOF)
+		full := n.Args[0].(*SStrL).V
+		i := strings.LastIndex(full, ".")
+		if i < 0 {
+			sfail("global: pkg.Name expected")
+		}
+		p := e.r.pkgByPath(full[:i])
+		if p == nil {
+			sfail("global: package %s not loaded", full[:i])
+		}
+		if v, ok := e.lookupPkgMember(p, full[i+1:]); ok {
+			return v
+		}
+		sfail("global: %s not found", full)
+	case "flen", "fpos", "fsynced": // ghost file model: length, position, durably synced length of an *os.File
+		f := e.eval(n.Args[0])
+		return specInt(Select(fileHeap(e.st, n.Fun[1:]), fileRef(f)))
+	case "fbyte": // fbyte(f, i): byte i of the file's content
+		f := e.eval(n.Args[0])
+		i := e.intOf(e.eval(n.Args[1]))
+		return Val{T: types.Typ[types.Uint8], C: []Term{Select(Select(fileHeap(e.st, "content"), fileRef(f)), i)}}
 	case "flt", "feq", "fle": // the Go relations < == <= on float values (uninterpreted; see the float axioms)
 		a, b := e.eval(n.Args[0]), e.eval(n.Args[1])
 		if len(a.C) != 1 || len(b.C) != 1 {
@@ -914,6 +935,8 @@ type ModTarget struct {
 	Ghost string
 	Chans bool
 	Arrays types.Type
+	File  *Val
+	FilePosOnly bool
 }
 
 func (e *SEnv) evalMod(x SExpr) ModTarget {
@@ -948,6 +971,12 @@ func (e *SEnv) evalMod(x SExpr) ModTarget {
 			return ModTarget{Ghost: n.Args[0].(*SStrL).V}
 		case "chans": // chans(): the open/closed state of channels
 			return ModTarget{Chans: true}
+		case "file": // file(f): content, length, position and synced length of an *os.File (ghost)
+			b := e.eval(n.Args[0])
+			return ModTarget{File: &b}
+		case "filepos": // filepos(f): only the position
+			b := e.eval(n.Args[0])
+			return ModTarget{File: &b, FilePosOnly: true}
 		case "arrays": // arrays(s): every backing array of s's element type (used when the array is only known under a lock)
 			b := e.eval(n.Args[0])
 			if b.T == nil || !isSlice(b.T) {
